@@ -17,36 +17,61 @@ inductive Reach (c : Codec) : Nat → Prop where
   | init : Reach c 0x00
   | call (cs : Nat) (m : Meth) (o : Out) : Reach c cs → o ∈ next c cs m → Reach c o.2
 
+/-- The states a decoder can be in: without the metadata side-track there are no `0x10` states. -/
+def statesOf (c : Codec) : List Nat :=
+  if c.hasMetadata then states else [0x00, 0x20, 0x28, 0x40, 0x60]
+
+theorem statesOf_sub (c : Codec) : ∀ s ∈ statesOf c, s ∈ states := by
+  cases c <;> decide
+
 /-- The listed states are closed under every outcome of every call. -/
-theorem states_closed (c : Codec) : ∀ s ∈ states, ∀ m : Meth, ∀ o ∈ next c s m, o.2 ∈ states := by
+theorem states_closed (c : Codec) : ∀ s ∈ statesOf c, ∀ m : Meth, ∀ o ∈ next c s m, o.2 ∈ statesOf c := by
   intro s hs m
   cases c <;> cases m <;> revert s <;> decide
 
-/-- Every reachable `call_sequence` value is one of `0x00 0x10 0x20 0x28 0x30 0x40 0x60`. -/
-theorem reach_states (c : Codec) (cs : Nat) (h : Reach c cs) : cs ∈ states := by
+/-- Every reachable `call_sequence` value is one of `0x00 0x10 0x20 0x28 0x30 0x40 0x60`
+(`0x00 0x20 0x28 0x40 0x60` for a decoder without metadata). -/
+theorem reach_statesOf (c : Codec) (cs : Nat) (h : Reach c cs) : cs ∈ statesOf c := by
   induction h with
-  | init => decide
+  | init => cases c <;> decide
   | call cs m o _ ho ih => exact states_closed c cs ih m o ho
 
+theorem reach_states (c : Codec) (cs : Nat) (h : Reach c cs) : cs ∈ states :=
+  statesOf_sub c cs (reach_statesOf c cs h)
+
 /-- In a reachable state, an out-of-order call has exactly one outcome: `#bad call sequence`, with
-`call_sequence` unchanged; an in-order call is never answered with `#bad call sequence`. -/
-theorem states_reject (c : Codec) : ∀ s ∈ states, ∀ m : Meth,
+`call_sequence` unchanged; an in-order call is never answered with `#bad call sequence`.
+(`tell_me_more` of a decoder without the metadata side-track is the exception: see
+`tmm_without_metadata`.) -/
+theorem states_reject (c : Codec) : ∀ s ∈ statesOf c, ∀ m : Meth, (c.hasMetadata = true ∨ m ≠ .tmm) →
     (inOrder s m = false → next c s m = [(.bcs, s)]) ∧
     (inOrder s m = true → ∀ o ∈ next c s m, o.1 ≠ .bcs) := by
   intro s hs m
   cases c <;> cases m <;> revert s <;> decide
 
+/-- The decoders without metadata (bmp, jpeg, nie, …) answer EVERY `tell_me_more`, in every state,
+with an error and leave `call_sequence` alone: the call is rejected (and, `tell_me_more` being a
+coroutine, the object is disabled), but with `"#no more information"` rather than the
+`"#bad call sequence"` that doc/std/image-decoders-call-sequence.md promises for "a TMM call … unless
+the decoder is in a right hand column state" (KNOWN_FINDINGS.txt, key
+`callseq:tmm-without-metadata:no-more-information`). -/
+theorem tmm_without_metadata (c : Codec) (h : c.hasMetadata = false) (cs : Nat) :
+    next c cs .tmm = [(.err, cs)] := by
+  cases c <;> simp_all [Codec.hasMetadata, next, finish, tmmInner]
+
 /-- **call_sequence_ok (rejection).** Along every history, every out-of-order call (DIC after
 anything was decoded, TMM without pending metadata, RF before the image configuration, DFC/DF while
 metadata is pending) is rejected with `#bad call sequence` and leaves the state alone. -/
 theorem call_sequence_rejects (c : Codec) (cs : Nat) (h : Reach c cs) (m : Meth)
+    (hm : c.hasMetadata = true ∨ m ≠ .tmm)
     (hout : inOrder cs m = false) : next c cs m = [(.bcs, cs)] :=
-  (states_reject c cs (reach_states c cs h) m).1 hout
+  (states_reject c cs (reach_statesOf c cs h) m hm).1 hout
 
 /-- … and an in-order call is never rejected that way. -/
 theorem call_sequence_accepts (c : Codec) (cs : Nat) (h : Reach c cs) (m : Meth)
+    (hm : c.hasMetadata = true ∨ m ≠ .tmm)
     (hin : inOrder cs m = true) : ∀ o ∈ next c cs m, o.1 ≠ .bcs :=
-  (states_reject c cs (reach_states c cs h) m).2 hin
+  (states_reject c cs (reach_statesOf c cs h) m hm).2 hin
 
 /-- **call_sequence_ok (never stuck), part 1.** Every call has an outcome in every state — also in
 values of `call_sequence` no history reaches. -/
@@ -86,16 +111,21 @@ theorem dfcInner_ne (c : Codec) (cs : Nat) : dfcInner c cs ≠ [] := by
       · split
         · simp
         · split
-          · simp [Res.ofStops, stops]
+          · cases c <;> simp [Res.ofStops, stops]
           · simp
 
+theorem dfBody_ne (c : Codec) : dfBody c ≠ [] := by
+  cases c <;> simp [dfBody, Res.ofStops, stops]
+
 theorem dfInner_ne (c : Codec) (cs : Nat) : dfInner c cs ≠ [] := by
-  have hbody : (Res.ofStops 0x40 ++ [Res.cont 0x20]) ≠ [] := by simp [Res.ofStops, stops]
+  have hbody := dfBody_ne c
   have hvia : ((dfcInner c cs).flatMap fun r => match r with
       | .fin o => [Res.fin o]
-      | .cont _ => Res.ofStops 0x40 ++ [Res.cont 0x20]) ≠ [] := by
+      | .cont _ => dfBody c) ≠ [] := by
     apply flatMap_ne _ _ (dfcInner_ne c cs)
-    intro r; cases r <;> simp [Res.ofStops, stops]
+    intro r; cases r
+    · exact hbody
+    · simp
   unfold dfInner
   cases c
   · dsimp only
@@ -112,13 +142,27 @@ theorem dfInner_ne (c : Codec) (cs : Nat) : dfInner c cs ≠ [] := by
       · split
         · exact hvia
         · exact hbody
+  · dsimp only
+    split
+    · exact hbody
+    · split
+      · exact hvia
+      · simp
+  · dsimp only
+    split
+    · exact hbody
+    · split
+      · exact hvia
+      · simp
 
 theorem never_stuck (c : Codec) (cs : Nat) (m : Meth) : next c cs m ≠ [] := by
   cases m <;> simp only [next] <;> apply finish_ne
   · exact dicInner_ne c cs
   · exact dfcInner_ne c cs
   · exact dfInner_ne c cs
-  · unfold tmmInner; split <;> simp [Res.ofStops, stops]
+  · unfold tmmInner; split
+    · simp
+    · split <;> simp [Res.ofStops, stops]
   · unfold rfInner; split <;> simp
 
 /-- **never stuck, part 2.** In every state some call is in order, and it can make progress: there is
@@ -129,9 +173,9 @@ theorem some_call_in_order (cs : Nat) : inOrder cs .dfc = true ∨ inOrder cs .t
 
 /-- For all `call_sequence` values, not only reachable ones: TMM is rejected exactly when the 0x10
 bit is clear, RF exactly below 0x20, DIC exactly when anything was decoded. -/
-theorem tmm_rejected_iff (c : Codec) (cs : Nat) :
+theorem tmm_rejected_iff (c : Codec) (hc : c.hasMetadata = true) (cs : Nat) :
     next c cs .tmm = [(.bcs, cs)] ↔ cs &&& 0x10 = 0 := by
-  simp only [next, finish, tmmInner]
+  simp only [next, finish, tmmInner, hc]
   split <;> simp_all [Res.ofStops, stops]
 
 theorem rf_rejected_iff (c : Codec) (cs : Nat) : next c cs .rf = [(.bcs, cs)] ↔ cs < 0x20 := by
@@ -151,10 +195,15 @@ theorem eod_absorbing (c : Codec) : next c 0x60 .dfc = [(.eod, 0x60)] ∧ next c
 
 /-- The canonical sequence of the document is a history of the automaton: DIC, DFC, DF, DFC, DF, DFC
 ending in `"@end of data"` (non-vacuity of `Reach`, and the happy path is not rejected). -/
-example : ∀ c : Codec,
+example : ∀ c : Codec, c ≠ .still →
     (.ok, 0x20) ∈ next c 0x00 .dic ∧ (.ok, 0x40) ∈ next c 0x20 .dfc ∧ (.ok, 0x20) ∈ next c 0x40 .df ∧
     (.ok, 0x40) ∈ next c 0x20 .dfc ∧ (.ok, 0x20) ∈ next c 0x40 .df ∧ (.eod, 0x60) ∈ next c 0x20 .dfc := by
   intro c; cases c <;> decide
+
+/-- … and for a single-frame decoder: DIC, DFC, DF, DFC ending in `"@end of data"`. -/
+example : (.ok, 0x20) ∈ next .still 0x00 .dic ∧ (.ok, 0x40) ∈ next .still 0x20 .dfc ∧
+    (.ok, 0x60) ∈ next .still 0x40 .df ∧ next .still 0x60 .dfc = [(.eod, 0x60)] ∧
+    next .still 0x40 .dfc = [(.eod, 0x60)] := by decide
 
 example : Reach .png 0x60 :=
   .call 0x20 .dfc (.eod, 0x60)
